@@ -4,8 +4,8 @@ scalar-polymorphic spelling of their own:
 
 * `Cv.F64Consts α` — the associated constants of `f64` and of `std::f64::consts` (`f64::EPSILON`, `f64::MAX`, `consts::PI`, …).
   A function of `/repo/src` that mentions one of them translates to a definition over `[Cv.F64Consts α]`.
-* `Cv.Lit α` — a decimal literal that is not exactly representable in a short dyadic form (`1e-2`, `0.3275911`, …), keyed by
-  the bit pattern of the `f64` the Rust parser rounds it to: `Cv.Lit.ofBits 0x3F847AE147AE147B`.
+* `Cv.LitBits α` — a decimal literal that is not exactly representable in a short dyadic form (`1e-2`, `0.3275911`, …), keyed by
+  the bit pattern of the `f64` the Rust parser rounds it to: `Cv.LitBits.ofBits 0x3F847AE147AE147B`.
 
 Both exist so that a source edit which INTRODUCES a constant or a literal still regenerates (instead of leaving the translated
 subset): the regenerated definition then mentions the new constant, and the equivalence theorem against the hand model — which
@@ -75,9 +75,9 @@ instance : F64Consts Float where
   frac2SqrtPi := Float.ofBits 0x3FF20DD750429B6D
 
 /-- A decimal `f64` literal of the source, by the bit pattern the Rust parser rounds it to. -/
-class Lit (α : Type) where
+class LitBits (α : Type) where
   ofBits : UInt64 → α
 
-instance : Lit Float := ⟨Float.ofBits⟩
+instance : LitBits Float := ⟨Float.ofBits⟩
 
 end Cv
